@@ -114,7 +114,6 @@ Same guards as `ply_roundtrip_binary_partial` plus a printable texture URI; that
 pairwise distinct follows from `writeMesh … = .ok` (the writer rejects anything else, writer.go:144-158). -/
 theorem ply_roundtrip_binary_bytes [BEq α] [LawfulBEq α] (c : Coding α) (cfg : WriterCfg) (m : MeshVal α) (bytes : Bytes)
     (hf : cfg.format ≠ .ascii) (hwf : m.WF = true) (h : writeMesh c cfg m = .ok bytes)
-    (hnotex : ¬ (m.topo = .triangle ∧ hasTexCoord m = true))
     (hpoint : m.topo = .point → m.indices = (List.range m.attrLen).map Int.ofNat)
     (hsize : m.attrLen ≤ 2 ^ 31) (hidx : m.indices.length < 2 ^ 63)
     (huri : ∀ u, m.texURI = some u → CommentOK (nm "TextureFile " ++ u))
@@ -122,20 +121,19 @@ theorem ply_roundtrip_binary_bytes [BEq α] [LawfulBEq α] (c : Coding α) (cfg 
     ∃ back, readMesh c defaultReader bytes = .ok back ∧ RoundTrips c cfg m back = true := by
   obtain ⟨body, hbody, _, hparse⟩ := ply_written_header_parses c cfg m bytes h huri
     (Nat.lt_of_le_of_lt hsize (by decide)) hidx
-  obtain ⟨back, hread, hrt⟩ := ply_roundtrip_binary_partial c cfg m body hf hwf hbody hnotex hpoint hsize bl hcl
+  obtain ⟨back, hread, hrt⟩ := ply_roundtrip_binary_partial c cfg m body hf hwf hbody hpoint hsize bl hcl
   exact ⟨back, by simp [readMesh, hparse, bind, Except.bind, hread], hrt⟩
 
 /-- the same with the decidable claim certificate; the `example`s discharge every hypothesis by `decide` -/
 theorem ply_roundtrip_binary_bytes_checked [BEq α] [LawfulBEq α] (c : Coding α) (cfg : WriterCfg) (m : MeshVal α)
     (bytes : Bytes) (hf : cfg.format ≠ .ascii) (hwf : m.WF = true) (h : writeMesh c cfg m = .ok bytes)
-    (hnotex : ¬ (m.topo = .triangle ∧ hasTexCoord m = true))
     (hpoint : m.topo = .point → m.indices = (List.range m.attrLen).map Int.ofNat)
     (hsize : m.attrLen ≤ 2 ^ 31) (hidx : m.indices.length < 2 ^ 63)
     (huri : ∀ u, m.texURI = some u → CommentOK (nm "TextureFile " ++ u))
     (hcheck : (claimCheck cfg m).isSome = true) :
     ∃ back, readMesh c defaultReader bytes = .ok back ∧ RoundTrips c cfg m back = true := by
   obtain ⟨bl, hbl⟩ := Option.isSome_iff_exists.mp hcheck
-  exact ply_roundtrip_binary_bytes c cfg m bytes hf hwf h hnotex hpoint hsize hidx huri bl
+  exact ply_roundtrip_binary_bytes c cfg m bytes hf hwf h hpoint hsize hidx huri bl
     (claimCheck_sound cfg m bl hbl)
 
 /-! non-vacuity: the welded triangle mesh and the custom-configuration point cloud of `C04Compose`, from file bytes -/
@@ -148,12 +146,18 @@ example : HeaderOK (writeHeader (defaultWriter .be) exMesh) :=
 example : ∃ back, readMesh toyCoding defaultReader ((writeMesh toyCoding (defaultWriter .be) exMesh).toOption.getD [])
       = .ok back ∧ RoundTrips toyCoding (defaultWriter .be) exMesh back = true :=
   ply_roundtrip_binary_bytes_checked toyCoding (defaultWriter .be) exMesh _ (by decide) (by decide) (by rfl)
-    (by decide) (by decide) (by decide) (by decide) (by intro u hu; simp [exMesh] at hu) (by decide)
+    (by decide) (by decide) (by decide) (by intro u hu; simp [exMesh] at hu) (by decide)
 
 example : ∃ back, readMesh toyCoding defaultReader ((writeMesh toyCoding exCfg exCloud).toOption.getD [])
       = .ok back ∧ RoundTrips toyCoding exCfg exCloud back = true :=
   ply_roundtrip_binary_bytes_checked toyCoding exCfg exCloud _ (by decide) (by decide) (by rfl)
-    (by decide) (by decide) (by decide) (by decide) (by intro u hu; simp [exCloud] at hu) (by decide)
+    (by decide) (by decide) (by decide) (by intro u hu; simp [exCloud] at hu) (by decide)
+
+/-- the UV-mapped welded quad of `C04Compose`, from file bytes -/
+example : ∃ back, readMesh toyCoding defaultReader ((writeMesh toyCoding (defaultWriter .le) exUV).toOption.getD [])
+      = .ok back ∧ RoundTrips toyCoding (defaultWriter .le) exUV back = true :=
+  ply_roundtrip_binary_bytes_checked toyCoding (defaultWriter .le) exUV _ (by decide) (by decide) (by rfl)
+    (by decide) (by decide) (by decide) (by intro u hu; simp [exUV] at hu) (by decide)
 
 /-- a cut header: the first 40 bytes of that file -/
 example : parseHeader (((writeHeader (defaultWriter .be) exMesh).render).take 40) = .error .err :=
